@@ -44,6 +44,10 @@ def run(ctx):
         drain_type(ctx, crate, tag)
         ctx.guard("queued-in-consumer" + tag, queued_in_consumer, ctx, crate, crs, tag)
         ctx.guard("one-encode-per-round" + tag, one_encode_per_round, ctx, crate, tag)
+        # nothing but the encoder's queued futures (and the cache itself) enters the cache's fetching entry points: a prefetch
+        # issued from run_sat is a barrier in front of the queue (seed C11-16)
+        import c09
+        ctx.guard("causality" + tag, c09.causality, ctx, crate, tag)
 
 
 def one_encode_per_round(ctx, crate, tag):
